@@ -67,11 +67,18 @@ def coinstate_digest(cs):
     for bid in sorted(cs.block_by_hash.keys()):
         h.update(b"B" + bid)
         h.update(cs.block_by_hash[bid].serialize())
-        for ref, o in sorted(((r.hash, r.index), (o.value, o.public_key.public_key))
-                             for r, o in cs.unspent_transaction_outs_by_hash[bid].items()):
-            h.update(ref[0] + struct.pack(">IQ", ref[1], o[0]) + o[1])
-        for ht, b in sorted((k, v.hash()) for k, v in cs.block_by_height_by_hash[bid].items()):
-            h.update(struct.pack(">Q", ht) + b)
+        # (a tree is free to keep these per-block maps for fewer blocks than it knows: the digest says "none kept" then)
+        umap, hmap = cs.unspent_transaction_outs_by_hash.get(bid), cs.block_by_height_by_hash.get(bid)
+        if umap is None:
+            h.update(b"no-unspent-map")
+        else:
+            for ref, o in sorted(((r.hash, r.index), (o.value, o.public_key.public_key)) for r, o in umap.items()):
+                h.update(ref[0] + struct.pack(">IQ", ref[1], o[0]) + o[1])
+        if hmap is None:
+            h.update(b"no-height-map")
+        else:
+            for ht, b in sorted((k, v.hash()) for k, v in hmap.items()):
+                h.update(struct.pack(">Q", ht) + b)
     for t in sorted(cs.heads.keys()):
         h.update(b"T" + t)
     h.update(b"H" + (cs.current_chain_hash or b""))
